@@ -114,9 +114,21 @@ def stability(x, cycles, what):
         raise PropertyViolation("C05.save_is_pure", "%s: saving changed the object: %r" % (what, d[:3]))
     if o.read() != y:
         raise PropertyViolation("C05.save_deterministic", "%s: two saves of one object differ" % what)
+    # looking at a loaded object is not a modification: an object that is saved first and inspected
+    # afterwards writes the same bytes as one inspected first, before and after the inspection
+    o2 = load(x)
+    y2 = o2.read()
+    if y2 != y:
+        raise PropertyViolation("C05.inspection.before_vs_after", "%s: a loaded object saved without being looked at writes other bytes than one whose attributes were read first" % what, key="C05.inspection")
+    snap_any(o2)
+    if o2.read() != y2:
+        raise PropertyViolation("C05.inspection.changes_output", "%s: reading the attributes of a loaded object between two saves changed what it writes" % what, key="C05.inspection")
     cur = y
     for n in range(1, cycles + 1):
-        nxt = load(cur).read()
+        o3 = load(cur)
+        if n % 2 == 0:
+            snap_any(o3)
+        nxt = o3.read()
         if nxt != cur:
             ca, cb = chunktools.parse(cur), chunktools.parse(nxt)
             firstdiff = next(((i, a, b) for i, (a, b) in enumerate(zip(ca, cb)) if a != b), None)
